@@ -164,8 +164,8 @@ def check_case(rep, c):
         except Exception as e:  # noqa: BLE001
             rep.violation({**key, "error": type(e).__name__}, f"LeakyTanh({m}).transform({x}): {type(e).__name__}: {e}")
             return
-        g = 1 - math.tanh(m) ** 2
-        exp = g * x + math.copysign(1, x) * (math.tanh(m) - g * m) if v["branch"] == "linear" else math.tanh(x)
+        g = math.cosh(m) ** -2                       # = 1 - tanh(m)^2 without its cancellation
+        exp = math.copysign(1, x) * (math.tanh(m) + g * (abs(x) - m)) if v["branch"] == "linear" else math.tanh(x)
         if not close(y, exp, 1e-13):
             rep.violation({**key, "what": "value", "branch": v["branch"]},
                           f"LeakyTanh({m}).transform({x}) = {y}; the {v['branch']} piece gives {exp}", {"case": c})
